@@ -1,5 +1,5 @@
 \* C15 quick: store-level simulated clear/reuse cycles high3 x exact0
-\* run by hand:  cd spec && tlc -workers 8 RunGenStore.tla -config cfg/C15__RunGenStore__store_level_simulated_clear_reuse_cycles_high3_x_exact0.cfg -simulate num=250 -depth 17 -seed 2   (root module generated by the harness: see the .tla file next to this one; copy it to spec/ first)
+\* run by hand:  cd spec && tlc -workers 8 RunGenStore.tla -config cfg/C15__RunGenStore__store_level_simulated_clear_reuse_cycles_high3_x_exact0.cfg -simulate num=250 -depth 17 -seed 1   (root module generated by the harness: see the .tla file next to this one; copy it to spec/ first)
 INIT GenInit
 NEXT GenNext
 CONSTANTS
@@ -13,5 +13,9 @@ CONSTANTS
   InitStores <- RInit
   Depth = 16
   EndMarker = TRUE
+  SlotKeys <- RSlotKeys
+  Asc <- RAsc
+  Desc <- RDesc
+  Pairs <- RPairs
 INVARIANT Emit
 CHECK_DEADLOCK FALSE
